@@ -799,6 +799,14 @@ func decodeCounterSample(data *[]byte, expanded bool) (SFlowCounterSample, error
 	var sdce SFlowDataSourceExpanded
 	var sdf SFlowDataFormat
 
+	// format, length, sequence number, source id (4 or 8 octets), record count
+	need := 20
+	if expanded {
+		need = 24
+	}
+	if len(*data) < need {
+		return s, errors.New("sflow counter sample too small")
+	}
 	*data, sdf = (*data)[4:], SFlowDataFormat(binary.BigEndian.Uint32((*data)[:4]))
 	s.EnterpriseID, s.Format = sdf.decode()
 	*data, s.SampleLength = (*data)[4:], binary.BigEndian.Uint32((*data)[:4])
@@ -813,6 +821,9 @@ func decodeCounterSample(data *[]byte, expanded bool) (SFlowCounterSample, error
 	*data, s.RecordCount = (*data)[4:], binary.BigEndian.Uint32((*data)[:4])
 
 	for i := uint32(0); i < s.RecordCount; i++ {
+		if len(*data) < 4 {
+			return s, errors.New("sflow counter sample too small for the announced number of records")
+		}
 		cdf := SFlowCounterDataFormat(binary.BigEndian.Uint32((*data)[:4]))
 		_, counterRecordType := cdf.decode()
 		switch counterRecordType {
